@@ -104,6 +104,24 @@ pub fn node_info(n: u8) -> NodeInfo {
     }
 }
 
+/// What a node with advertised IPv4 addresses, a few peers and several claims offers in its handshake: address lists
+/// that mix the families in every order (the wire format regroups them: IPv6 first), peers with and without node id,
+/// IPv4 / IPv6 / MAC claims. PairSim offers this and expects its normalised form at the other end.
+pub fn rich_node_info(n: u8) -> NodeInfo {
+    use vpncloud::messages::PeerInfo;
+    let a = |s: String| -> std::net::SocketAddr { s.parse().unwrap() };
+    NodeInfo {
+        node_id: node_id(n),
+        peers: smallvec![
+            PeerInfo { node_id: Some(node_id(n.wrapping_add(40))), addrs: smallvec![a(format!("192.0.2.{}:3210", n)), a(format!("[2001:db8::{:x}]:3210", n)), a(format!("198.51.100.{}:4000", n))] },
+            PeerInfo { node_id: None, addrs: smallvec![a(format!("[fd00::{:x}]:1", n)), a("[::ffff:10.9.8.7]:3210".to_string())] },
+        ],
+        claims: smallvec![format!("10.{}.0.0/16", n).parse().unwrap(), format!("2001:db8:{:x}::/48", n).parse().unwrap(), format!("02:00:00:00:00:{:02x}/48", n).parse().unwrap()],
+        peer_timeout: Some(300 + n as u16),
+        addrs: smallvec![a(format!("203.0.113.{}:{}", n, 1000 + n as u16)), a(format!("[::]:{}", 1000 + n as u16)), a(format!("10.0.0.{}:{}", n, 1000 + n as u16)), a(format!("[2001:db8:1::{:x}]:5", n))],
+    }
+}
+
 pub fn new_buf() -> Box<MsgBuffer> {
     Box::new(MsgBuffer::new(SPACE))
 }
@@ -662,7 +680,7 @@ impl PairSim {
     /// (the only SystemRandom draw that changes control flow) by re-creating the objects until it holds.
     pub fn new(a: &EndSpec, b: &EndSpec, orientation: Option<bool>) -> Self {
         let mk = |s: &EndSpec| {
-            PeerCrypto::new(node_id(s.id), node_info(s.id), s.key.clone(), s.trusted.clone().into_boxed_slice().into(), s.algos.clone())
+            PeerCrypto::new(node_id(s.id), rich_node_info(s.id), s.key.clone(), s.trusted.clone().into_boxed_slice().into(), s.algos.clone())
         };
         let ea = mk(a);
         let mut eb = mk(b);
@@ -674,7 +692,7 @@ impl PairSim {
             if orientation.map(|w| w == o).unwrap_or(true) || guard > 200 {
                 return PairSim {
                     ends: [ea, eb],
-                    payload: [node_info(a.id), node_info(b.id)],
+                    payload: [crate::props::c16::normalise(&rich_node_info(a.id)), crate::props::c16::normalise(&rich_node_info(b.id))],
                     inflight: vec![],
                     events: vec![],
                     completed: [0, 0],
